@@ -146,6 +146,7 @@ static int handle_core(char **f, int nf) {
 #include "u_wfile.h"
 #include "u_policy.h"
 #include "u_skiplist.h"
+#include "u_cache.h"
 
 static void handle(char *line) {
   static char *f[MAXF]; int nf = split_fields(line, f, MAXF);
@@ -159,6 +160,7 @@ static void handle(char *line) {
   if (handle_wfile(f, nf)) return;
   if (handle_policy(f, nf)) return;
   if (handle_skiplist(f, nf)) return;
+  if (handle_cache(f, nf)) return;
   printf("bad-op");
 }
 
